@@ -509,9 +509,22 @@ def bytes_slice(st, b, lo, hi):
             return z3.If(v.hi + x >= v.lo, v.hi + x, v.lo)
         t = int_term(x)
         return z3.If(t >= 0, z3.If(v.lo + t <= v.hi, v.lo + t, v.hi), z3.If(v.hi + t >= v.lo, v.hi + t, v.lo))
-    a, c = z3.simplify(absolute(lo, False)), z3.simplify(absolute(hi, True))
-    c2 = z3.simplify(z3.If(c >= a, c, a))
+    a, c = resolve_ifs(st, absolute(lo, False)), resolve_ifs(st, absolute(hi, True))
+    c2 = resolve_ifs(st, z3.If(c >= a, c, a))
     return SBytes([View(v.arr, a, c2)], mutable=b.mutable)
+
+
+def resolve_ifs(st, t):
+    """Simplify If-terms whose condition is decided by the path condition."""
+    t = z3.simplify(t)
+    if z3.is_app(t) and t.decl().kind() == z3.Z3_OP_ITE:
+        c, x, y = t.arg(0), t.arg(1), t.arg(2)
+        if entails(st.pc, c):
+            return resolve_ifs(st, x)
+        if entails(st.pc, z3.Not(c)):
+            return resolve_ifs(st, y)
+        return z3.If(c, resolve_ifs(st, x), resolve_ifs(st, y))
+    return t
 
 
 def _slice_segments(st, b, lo, hi):
